@@ -91,6 +91,7 @@ HAZ = {
     'nested_fun_call': (['uargs', 'sched'], 'unused-args:nested-reference-to-same-function-not-updated'),
     'select_literal_range': (['dce0', 'dce1'], 'deadcode:select-case-literal-selector-range'),
     'select_logical': (['dce0', 'dce1'], 'deadcode:select-case-logical-selector'),
+    'select_body_emptied': (['dce0', 'dce1'], 'deadcode:select-case-body-emptied-by-pruning-shifts-later-bodies'),
     'uvars_scalars_with_loops': (['uvars'], 'unused-vars:loop-variable-declaration-removed'),
     'local_kind_param': (['uvars'], 'unused-vars:local-kind-parameter-removed'),
     'param_in_initializer': (['uvars'], 'unused-vars:parameter-used-only-in-initialiser-removed'),
